@@ -7,7 +7,7 @@ tour; random walks of length 8 in thorough), the Go recorder concretises them in
 Session.dispatchRaw on fresh sessions of the World; Monitor_C11.tla evaluates the clauses on the real replies / projected
 session state and checks conformance with the as-built model.
 """
-import json, os, random, re, collections
+import json, os, random, re, collections, threading
 import vlib
 
 # Deviations of today's /repo from the as-intended model (TRUE = what the code does today; see known_findings_c13.notes.md).
@@ -48,10 +48,10 @@ REC_RE = re.compile(r"\[([^\[\]]*)\]")
 FLD_RE = re.compile(r'(\w+) \|-> "([^"]*)"')
 
 
-def parse_alphabet(out):
+def parse_alphabet(out, tag="ALPHABET"):
     """<< "ALPHABET", << [k |-> "hi", ...], ... >> >> printed by TLC -> list of dicts (index order)."""
     txt = " ".join(out.split())
-    m = re.search(r'<<\s*"ALPHABET"\s*,', txt)
+    m = re.search(r'<<\s*"%s"\s*,' % tag, txt)
     if not m:
         raise vlib.Infra("TLC did not print the alphabet")
     j = re.search(r'\]\s*>>\s*>>', txt[m.end():])
@@ -74,12 +74,6 @@ def parse_hists(out, tag):
 def generate(ctx, thorough):
     dev = dev_built()
     fams = collections.OrderedDict()
-    # the full message universe (index -> record), for the tour continuations
-    cfg = mc_cfg(ctx, "SessGenAll", dev, "all", 0, "X", False, [])
-    r = ctx.tlc("Session_MC", cfg, workers=1, timeout=300)
-    if not r.ok:
-        raise vlib.Infra("Session_MC (alphabet listing) failed: " + r.out[-800:])
-    allmsgs = parse_alphabet(r.out)
     alpha = "t" if thorough else "q"
     # F1: every sequence of <= 3 messages over the C11 alphabet (each is a distinct TLC state; clauses checked on the way)
     cfg = mc_cfg(ctx, "SessGenSeq", dev, alpha, 3, "SEQ", False, ["Emit", "TypeOK"])
@@ -96,6 +90,7 @@ def generate(ctx, thorough):
     if not r2.ok:
         raise vlib.Infra("Session_MC witness generation failed: " + (r2.error or r2.out[-800:]))
     wits = parse_hists(r2.out, "WIT")
+    allmsgs = parse_alphabet(r2.out, "UNIVERSE")   # the full message universe, for the tour continuations
     rng = random.Random(ctx.seed * 7919 + 11)
     tour = []
     for h in wits:
@@ -119,12 +114,28 @@ def generate(ctx, thorough):
 
 def run(ctx):
     thorough = ctx.tier == "thorough"
-    # ---- U1: as-intended model, whole reachable state space, every abstract message in every state
-    r0 = ctx.tlc_must_pass("Session_MC", mc_cfg(ctx, "SessU1", DEV_INTENDED, "all", 1000, "", True, ["NoViolation", "TypeOK"]), timeout=900)
-    vlib.log("U1 Session (as intended, all messages, all reachable states): %d transitions, %d states, %.1fs" % (r0.generated, r0.distinct, r0.wall))
-    r0b = ctx.tlc_must_pass("Session_MC", mc_cfg(ctx, "SessU1b", DEV_INTENDED, "t" if thorough else "q", 4 if thorough else 3, "", False,
-                                                ["NoViolation", "TypeOK"]), timeout=900)
-    vlib.log("U1 Session (all sequences of <= %d messages over the C11 alphabet): %d states, %.1fs" % (4 if thorough else 3, r0b.distinct, r0b.wall))
+    # ---- U1: as-intended model (runs in the background while the sequences are generated and recorded)
+    u1 = {}
+
+    def design_check():
+        try:
+            # whole reachable state space, every abstract message in every state = sequences of every length
+            u1["r0"] = ctx.tlc_must_pass("Session_MC", mc_cfg(ctx, "SessU1", DEV_INTENDED, "all", 1000, "", True, ["NoViolation", "TypeOK"]),
+                                         timeout=900, workers=max(4, vlib.NCPU // 2))
+            # every sequence of <= 3 (4) messages over the C11 alphabet as a distinct state
+            u1["r0b"] = ctx.tlc_must_pass("Session_MC", mc_cfg(ctx, "SessU1b", DEV_INTENDED, "t" if thorough else "q", 4 if thorough else 3, "", False,
+                                                            ["NoViolation", "TypeOK"]), timeout=900, workers=max(4, vlib.NCPU // 2))
+        except BaseException as e:  # re-raised in the main thread
+            u1["err"] = e
+    th = threading.Thread(target=design_check)
+    th.start()
+    try:
+        return record_and_judge(ctx, thorough, th, u1)
+    finally:
+        th.join()
+
+
+def record_and_judge(ctx, thorough, th, u1):
 
     # ---- sequences generated by TLC from the as-built model
     fams, gstat = generate(ctx, thorough)
@@ -142,7 +153,7 @@ def run(ctx):
     env = {"VERIF_IN": inp, "VERIF_OUT": vec}
     if os.environ.get("VERIF_C11_SELFTEST"):
         env["VERIF_C11_SELFTEST"] = os.environ["VERIF_C11_SELFTEST"]
-    out, wall = ctx.go_test_must_run("./", "TestVerifC11Run$", env=env, timeout=1500)
+    out, wall = ctx.go_test_must_run("./", "TestVerifC11Run$", env=env, timeout=1500, extra=["-v"])
     m = re.search(r"VERIF_C11 sequences=(\d+) procs=(\d+) deaths=(\d+)", out)
     deaths = int(m.group(3)) if m else -1
     vectors = vlib.read_ndjson(vec)
@@ -179,6 +190,12 @@ def run(ctx):
         v = vectors[k - 1]
         ctx.divergences.append({"sequence": brief(v), "what": what})
 
+    th.join()
+    if "err" in u1:
+        raise u1["err"]
+    r0, r0b = u1["r0"], u1["r0b"]
+    vlib.log("U1 Session (as intended, all %d messages in every reachable state): %d transitions, %d states, %.1fs" % (gstat["universe"], r0.generated, r0.distinct, r0.wall))
+    vlib.log("U1 Session (every sequence of <= %d messages over the C11 alphabet): %d states, %.1fs" % (4 if thorough else 3, r0b.distinct, r0b.wall))
     steps = sum(len(v["steps"]) for v in vectors)
     kinds = collections.Counter(s["m"]["k"] for v in vectors for s in v["steps"])
     loggedin = sum(1 for v in vectors for s in v["steps"] if s["uid"])
